@@ -48,7 +48,7 @@ def outcomeOfIn (engine : String) (readTimeoutMs : Nat) (eps : List EpSpec) (i :
     if e.opened || e.prefail ≥ Olla.Gen.Retry.engineBreakerThreshold then .skip
     else if e.kind == "pause" then
       (if readTimeoutMs == 0 || e.stallMs < readTimeoutMs then .ok e.resp
-       else if engine == "sherpa" then .failAfter e.resp e.k false else .ok e.resp)
+       else .failAfter e.resp e.k false)
     else attemptOf e.kind e.chunked e.resp e.k
 
 def outcomeOf (eps : List EpSpec) (i : Nat) : Attempt := outcomeOfIn "" 0 eps i
